@@ -88,6 +88,11 @@ FAULTS = {
     'untokenizable_line': ("\x00c16.f.z = 1", (SyntaxError, tokenize.TokenError, SystemError), 'syntax'),  # SystemError: CPython 3.12 tokenizer, NUL right after a dedent
     'unknown_param': ("c16.f.nope = 1", ValueError, 'semantic'),
     'unknown_param_multiline': ("c16.f.nope = [1,\n  2,\n  3]", ValueError, 'semantic'),
+    # the statement BEGINS on the line of its selector / keyword, also when a continuation moves the rest further down
+    'unknown_param_continued': ("c16.f.nope \\\n    = 1", ValueError, 'semantic'),
+    'unknown_configurable_continued': ("c16.nofn.z \\\n  = \\\n  1", ValueError, 'semantic'),
+    'bad_include_continued': ("include \\\n    'missing.gin'", IOError, 'semantic'),
+    'bad_import_continued': ("import \\\n    no_such_module_c16", ImportError, 'semantic'),
     'unknown_configurable': ("c16.nofn.z = 1", ValueError, 'semantic'),
     'unknown_reference': ("c16.f.z = @c16.nonexistent()", ValueError, 'semantic'),
     'denylisted': ("c16.deny.x = 1", ValueError, 'semantic'),
